@@ -101,6 +101,63 @@ def destinedTo {S : Type} (hash : S → Nat) (n : Nat) (hist : List (List (Write
 def linesFor {S : Type} [DecidableEq S] (ws : List (Write S)) (s : S) : List Bytes :=
   (ws.filter (fun w => w.1 = s)).map (·.2)
 
+/-! ### packing the arguments of one `async_write_line` call
+
+`pack_stream(args...)`: `std::stringstream ss; (ss << ... << args); return ss.str();` — the stream
+is constructed inside the call, so formatting state set by a manipulator argument (`std::hex`,
+`std::boolalpha`, …) acts on the later arguments of THAT call only.  Modelled for string,
+non-negative integer and bool arguments and the base / boolalpha manipulators (floating-point
+formatting is left to the oracle: a fresh `std::ostringstream` fed the same arguments). -/
+
+inductive Tok
+  | str (b : Bytes) | nat (n : Nat) | bool (b : Bool)
+  | hex | dec | oct | boolalpha | noboolalpha
+deriving Repr, DecidableEq
+
+/-- formatting state of a stream: `basefield` and `boolalpha` -/
+structure Fmt where
+  base : Nat
+  alpha : Bool
+deriving Repr, DecidableEq
+
+/-- a freshly constructed stream -/
+def Fmt.init : Fmt := ⟨10, false⟩
+
+def digitChar (d : Nat) : UInt8 := if d < 10 then UInt8.ofNat (48 + d) else UInt8.ofNat (87 + d)
+
+/-- digits of `n` in base `b` (lower case, no prefix) -/
+def digitsIn (b n : Nat) : Bytes :=
+  if _h : n < b ∨ b < 2 then [digitChar n] else digitsIn b (n / b) ++ [digitChar (n % b)]
+termination_by n
+decreasing_by
+  have hb : 2 ≤ b := by omega
+  exact Nat.div_lt_self (by omega) hb
+
+/-- `ss << arg` -/
+def emit (st : Fmt) : Tok → Bytes × Fmt
+  | .str b => (b, st)
+  | .nat n => (digitsIn st.base n, st)
+  | .bool v => (if st.alpha then (if v then [116, 114, 117, 101] else [102, 97, 108, 115, 101]) else (if v then [49] else [48]), st)
+  | .hex => ([], { st with base := 16 })
+  | .dec => ([], { st with base := 10 })
+  | .oct => ([], { st with base := 8 })
+  | .boolalpha => ([], { st with alpha := true })
+  | .noboolalpha => ([], { st with alpha := false })
+
+/-- `(ss << ... << args)` on a stream in state `st`: text produced and the state left behind -/
+def packFrom (st : Fmt) : List Tok → Bytes × Fmt
+  | [] => ([], st)
+  | t :: ts =>
+    let r := emit st t
+    let r' := packFrom r.2 ts
+    (r.1 ++ r'.1, r'.2)
+
+/-- the line one call writes: a NEW stream per call -/
+def pack (args : List Tok) : Bytes := (packFrom Fmt.init args).1
+
+/-- the lines a sequence of calls on one `multi_output` object writes -/
+def linesOf (calls : List (List Tok)) : List Bytes := calls.map pack
+
 /-! ### daily_output: the date path -/
 
 /-- `std::to_string` of a non-negative integer: decimal digits, no padding -/
